@@ -25,3 +25,19 @@ package stream
 //@ func nonceIsZero
 //@   ensures#iff result <==> (forall j in 0..12 :: nonce[j] == 0)  [C02 C05]
 //@   modifies nothing
+
+//@ func NewReader(key, src) (r, err)
+//@   ensures#err err == nil <==> len(key) == 32
+//@   ensures#nonnil err == nil ==> r != nil
+//@   ensures#init err == nil ==> r.src == src && r.a.$key == bytes(key) && len(r.unread) == 0 && r.err == nil && ctr(r.nonce) == 0 && r.nonce[11] == 0   [C01 C02 C05 C12 C13]
+//@   ensures#nil err != nil ==> r == nil
+//@   fresh r when err == nil
+//@   modifies nothing
+
+//@ func NewWriter(key, dst) (w, err)
+//@   ensures#err err == nil <==> len(key) == 32
+//@   ensures#nonnil err == nil ==> w != nil
+//@   ensures#init err == nil ==> w.dst == dst && w.a.$key == bytes(key) && len(w.unwritten) == 0 && w.err == nil && ctr(w.nonce) == 0 && w.nonce[11] == 0 && rg(w.unwritten) == rg(w.buf) && off(w.unwritten) == 0   [C01 C05 C06 C12 C13]
+//@   ensures#nil err != nil ==> w == nil
+//@   fresh w when err == nil
+//@   modifies nothing
